@@ -3,10 +3,10 @@
    Every witness is also a case of the correspondence corpus (tools/props/comps_xpath.py, FIXED_EXPRS), where the real
    library is seen to give the as-coded answer.
 
-   The tree (module a):   c { s "x";  ll "5.0";
-                               l1 { k "5.0"; v "1"; in { x "q" } }
-                               l1 { k "b";   v "2"; in { x "r" } } }
-                           tl "t"                                        <- last top-level node: a leaf *)
+   The tree (module a):   c { s 'x';  ll '5.0';
+                               l1 { k '5.0'; v '1'; in { x 'q' } }
+                               l1 { k 'b';   v '2'; in { x 'r' } } }
+                           tl 't'                                        <- last top-level node: a leaf *)
 From Coq Require Import QArith.
 From LY Require Import Base XPathConv XPathTree XPathSem.
 Local Open Scope N_scope.
@@ -72,7 +72,7 @@ Example predicate_position_global_refuted :
   run impl_flags (chp p_c_l1 n_v (num [49])) = ONodes [11].
 Proof. split; vm_compute; reflexivity. Qed.
 
-(* /a:c/a:l1[a:k=5] : node-set = number compares numbers: "5.0" is 5; the hash lookup compares the strings "5.0", "5" *)
+(* /a:c/a:l1[a:k=5] : node-set = number compares numbers: '5.0' is 5; the hash lookup compares the strings '5.0', '5' *)
 Example fastpath_nonstring_rhs_refuted :
   run spec_flags (chp (ch ERoot n_c) n_l1 (ECmp CEq (ch ECtx n_k) (num [53]))) = ONodes [7] /\
   run impl_flags (chp (ch ERoot n_c) n_l1 (ECmp CEq (ch ECtx n_k) (num [53]))) = ONodes [].
@@ -86,7 +86,7 @@ Proof. vm_compute; reflexivity. Qed.
 Example axis_following_refuted :
   run spec_flags (EStep (ch (ch (chp p_c_l1 n_k (EFun0 FTrue)) n_zz) n_zz) false AxFollowing (TStar None) PNil) = ONodes [] /\
   run spec_flags (EStep (ch (ch p_c_l1 n_in) n_x) false AxFollowing (TStar None) PNil) = ONodes [17; 19; 21; 23; 25; 27] /\
-  run (Build_flags 64 true true true true true true true true true true true true true false true true true true true true true true true)
+  run (Build_flags 64 true true true true true true true true true true true true true false true true true true true true true true true true)
       (EStep (ch (ch p_c_l1 n_in) n_x) false AxFollowing (TStar None) PNil) = ONodes [].
 Proof. repeat split; vm_compute; reflexivity. Qed.
 
@@ -94,7 +94,7 @@ Proof. repeat split; vm_compute; reflexivity. Qed.
    are included *)
 Example axis_preceding_refuted :
   run spec_flags (EStep (ch p_c_l1 n_v) false AxPreceding (TStar None) PNil) = ONodes [3; 5; 7; 9; 11; 13; 15; 19] /\
-  run (Build_flags 64 true true true true true true true true true true true true true false true true true true true true true true true)
+  run (Build_flags 64 true true true true true true true true true true true true true false true true true true true true true true true true)
       (EStep (ch p_c_l1 n_v) false AxPreceding (TStar None) PNil) = ONodes [1; 3; 5; 7; 9; 11; 13; 15; 17; 19].
 Proof. split; vm_compute; reflexivity. Qed.
 
@@ -110,7 +110,7 @@ Example root_matches_star_refuted :
   run impl_flags (EStep (ch ERoot n_c) false AxAncestor (TStar None) PNil) = ONodes [0].
 Proof. split; vm_compute; reflexivity. Qed.
 
-(* count(//node()) : 14 elements and 9 text nodes; as coded "//" before node() is dropped: the 2 top-level nodes *)
+(* count(//node()) : 14 elements and 9 text nodes; as coded '//' before node() is dropped: the 2 top-level nodes *)
 Example dslash_nodetype_refuted :
   run spec_flags (EFun1 FCount (EStep ERoot true AxChild TNode PNil)) = ONum (x_of_Z 23) /\
   run impl_flags (EFun1 FCount (EStep ERoot true AxChild TNode PNil)) = ONum (x_of_Z 2).
@@ -128,7 +128,7 @@ Example cmp_nodeset_boolean_refuted :
   run impl_flags (ECmp CEq (ch (ch ERoot n_c) n_zz) (EFun0 FFalse)) = OBool false.
 Proof. split; vm_compute; reflexivity. Qed.
 
-(* /a:c/a:l1/a:v = '01' : string comparison "1" = "01" is false; as coded the literal is canonized as an int32 *)
+(* /a:c/a:l1/a:v = '01' : string comparison '1' = '01' is false; as coded the literal is canonized as an int32 *)
 Example cmp_canonize_refuted :
   run spec_flags (ECmp CEq (ch p_c_l1 n_v) (ELit [48; 49])) = OBool false /\
   run impl_flags (ECmp CEq (ch p_c_l1 n_v) (ELit [48; 49])) = OBool true.
